@@ -918,6 +918,13 @@ func (r *funcRun) errorf(st *State, cc *ssa.CallCommon, args []Value) Value {
 		w := st.freshConst("wrapped", SInt)
 		wrapped = w
 	}
+	if _, ok := r.v.spec.SmtFuns["isStorage"]; ok {
+		if wrapped.S != "" {
+			st.assume(mk(SBool, "(= (isStorage %s) (isStorage %s))", e.S, wrapped.S))
+		} else {
+			st.assume(mk(SBool, "(not (isStorage %s))", e.S))
+		}
+	}
 	if wrapped.S != "" {
 		st.cmds = append(st.cmds, fmt.Sprintf("(assert (forall ((t Int)) (! (= (errIs %s t) (or (= t %s) (errIs %s t))) :pattern ((errIs %s t)))))", e.S, e.S, wrapped.S, e.S))
 	} else {
